@@ -270,6 +270,9 @@ fn load_known(path: Option<&str>) -> Vec<Known> {
 fn shape(t: &Trace) -> String {
     let mut s = String::new();
     s.push_str(if t.timeout_ns == 0 { "t0" } else { "t+" });
+    if t.read_step_ns > 0 {
+        s.push_str(" tick");
+    }
     for e in t.events.iter() {
         s.push(' ');
         match e {
@@ -751,6 +754,7 @@ fn evidence_json(
     }
     cov.put("witness_runs_per_property", wj);
     cov.put("hook_clock_reads", J::u(p.clock_reads));
+    cov.put("time_passing_inside_calls", J::obj().set("runs_with_a_clock_read_step", J::u(p.faults_fired[gen::F_CLOCK_TICK])).set("steps_during_which_the_clock_moved", J::u(p.calls_during_which_time_passed)).set("polls_whose_deadline_fell_inside_the_call", J::u(p.polls_straddling_deadline)));
     let mut ac = J::obj();
     for i in 0..(apimon::L::_count as usize) {
         ac.put(apimon::LABEL_NAMES[i], J::u(p.api_calls[i]));
